@@ -3,6 +3,7 @@
 
 mod db;
 mod enc;
+mod fault;
 mod hk;
 mod crash;
 mod sched;
@@ -25,6 +26,7 @@ fn main() {
         "crash" => crash::main(&args[2..]),
         "trace" => tracecmd::main(&args[2..]),
         "sched" => sched::main(&args[2..]),
+        "fault" => fault::main(&args[2..]),
         other => {
             eprintln!("unknown driver {other}");
             2
